@@ -6,7 +6,7 @@ import ast
 import z3
 
 from pyvc import specz3
-from pyvc.sym import (I, B, A, A2, iv, add, sub, lit, fresh, fresh_seq, Seq, Tup, Mat, Row, Obj, FloatV, NONE, NoneV, const_str, const_list, MaskV, ZipSeq, MaybeFloat, qforall, LazySeq, MatLazy, DictV)
+from pyvc.sym import (I, B, A, A2, iv, add, sub, lit, fresh, fresh_seq, Seq, Tup, Mat, Row, Obj, FloatV, NONE, NoneV, const_str, const_list, MaskV, ZipSeq, MaybeFloat, qforall, LazySeq, MatLazy, DictV, NpInt)
 
 
 def U(msg):
@@ -169,8 +169,8 @@ def np_sum(ex, e, st):
         tot = iv(0)
         for q in range(k):
             tot = add(tot, v.at(q)) if q == 0 else tot + v.at(q)
-        return tot
-    return specz3.ssum(v.arr, iv(v.delta), v.start, add(v.start, v.n))
+        return NpInt(tot)
+    return NpInt(specz3.ssum(v.arr, iv(v.delta), v.start, add(v.start, v.n)))
 
 
 def where_indices(ex, st, m, line):
@@ -247,6 +247,8 @@ def _where_indices(ex, st, m, line):
 @lib("where")
 def np_where(ex, e, st):
     v = ex.ev(e.args[0], st)
+    if isinstance(v, MatLazy) and v.dtype == "bool":
+        return where2d(ex, st, v, e.lineno)
     if not isinstance(v, MaskV):
         raise U("where() of something that is not <array> <op> <scalar>")
     return Tup([where_indices(ex, st, v, e.lineno)])
@@ -358,3 +360,121 @@ def random_method(ex, e, st, attr):
             st.env[name] = Seq(x.kind, x.elem, new_arr, x.n, dtype=x.dtype)
         return NONE
     raise U(f"random.{attr}")
+
+
+# ------------------------------------------------------------------------------------------------ C19: remove_nasty_arc
+FLOG = z3.Function("flog", I, z3.RealSort())                                # numpy.log of a positive int, as an opaque real
+FDIV = z3.Function("fdiv", z3.RealSort(), z3.RealSort(), z3.RealSort())      # float division, opaque
+ILOG4 = z3.Function("ilog4f", I, I)                                          # int(log(n) / log(4)) as the interpreter computes it
+
+
+def numpy_name(ex, name):
+    q = ex.c.get("function") or ex.qualname
+    mod = q.split(".")[1] if q.startswith("dsw.") else None
+    return name in ex.registry.numpy_names.get(mod, set())
+
+
+@lib("log")
+def np_log(ex, e, st):
+    v = toint(ex.ev(e.args[0], st))
+    ex.prove(st, f"log-of-positive:{ex.ordinal('log')}", v > 0, e.lineno)
+    out = FloatV(FLOG(v))
+    out.tag = ("log", v)
+    return out
+
+
+def int_of_float(ex, st, v, line):
+    """int(log(n) / log(4)): the only float-to-int conversion modelled.  TRUSTED (checked against the interpreter for every k in 0..31 by
+    selftest/library_conformance.py): for n = 4**k, 0 <= k <= 31, the float quotient truncates to exactly k."""
+    tag = getattr(v, "tag", None)
+    if not (tag and tag[0] == "logratio" and lit(tag[2]) == 4):
+        raise U("int() of a float")
+    ex.trusted_used.add("int(numpy.log(4**k) / numpy.log(4)) == k for 0 <= k <= 31 (IEEE double arithmetic; conformance-checked for every such k)")
+    k_ = z3.Int("k#ilog4")
+    st.assume(z3.ForAll([k_], z3.Implies(z3.And(0 <= k_, k_ <= 31), ILOG4(specz3.ipow(iv(4), k_)) == k_), patterns=[specz3.ipow(iv(4), k_)]))
+    return ILOG4(tag[1])
+
+
+@lib("max")
+def np_max(ex, e, st):
+    """numpy.max of a non-empty integer matrix: an upper bound of every entry that is attained."""
+    if not numpy_name(ex, "max") or len(e.args) != 1 or e.keywords:
+        raise U("max() with these arguments")
+    v = ex.ev(e.args[0], st)
+    if not isinstance(v, (Mat, MatLazy)):
+        raise U("numpy.max of a non-matrix")
+    ex.trusted_used.add("numpy.max(matrix): >= every entry and equal to some entry; ValueError on an empty matrix")
+    ex.may_raise(st, "ValueError", z3.Or(v.rows <= 0, v.cols <= 0), f"max-of-empty:{ex.ordinal('max')}", e.lineno)
+    m, r_, c_ = fresh("max"), fresh("maxrow"), fresh("maxcol")
+    r, c = z3.Int("r#max"), z3.Int("c#max")
+    pat = v.arr2[r][c] if isinstance(v, Mat) else None
+    body = z3.Implies(z3.And(0 <= r, r < v.rows, 0 <= c, c < v.cols), v.at(r, c) <= m)
+    st.assume(z3.ForAll([r, c], body, patterns=[pat]) if pat is not None else z3.ForAll([r, c], body))
+    st.assume(z3.And(0 <= r_, r_ < v.rows, 0 <= c_, c_ < v.cols, v.at(r_, c_) == m))
+    return m
+
+
+def where2d(ex, st, m, line):
+    ex.trusted_used.add("numpy.where(2-D mask) = (row indices, column indices) of the true entries")
+    return Tup([("where2d", m, 0), ("where2d", m, 1)])
+
+
+@lib("unique")
+def np_unique(ex, e, st):
+    """numpy.unique(where(mask2d)[0]): the rows of the mask that hold a true entry, strictly increasing."""
+    v = ex.ev(e.args[0], st)
+    if not (isinstance(v, tuple) and v and v[0] == "where2d" and v[2] == 0) or e.keywords:
+        raise U("unique() of this value")
+    m = v[1]
+    cols = lit(m.cols)
+    if cols is None or cols > 8:
+        raise U("unique(where(..)[0]) of a wide matrix")
+    ex.trusted_used.add("numpy.unique(where(mask2d)[0]): strictly increasing row indices, exactly the rows with a true entry")
+    out = fresh_seq("uniq", "nd", "int", dtype="int")
+    i, j, r = z3.Int("i#uq"), z3.Int("j#uq"), z3.Int("r#uq")
+    anyrow = lambda x: z3.Or(*[m.at(x, c_) != 0 for c_ in range(cols)])
+    st.assume(out.n >= 0)
+    st.assume(z3.ForAll([i], z3.Implies(z3.And(0 <= i, i < out.n), z3.And(0 <= out.arr[i], out.arr[i] < m.rows, anyrow(out.arr[i]))), patterns=[out.arr[i]]))
+    st.assume(z3.ForAll([i, j], z3.Implies(z3.And(0 <= i, i < j, j < out.n), out.arr[i] < out.arr[j]), patterns=[z3.MultiPattern(out.arr[i], out.arr[j])]))
+    pos = z3.Function(str(fresh("uniqpos")), I, I)
+    st.assume(z3.ForAll([r], z3.Implies(z3.And(specz3_here(r), 0 <= r, r < m.rows, anyrow(r)), z3.And(0 <= pos(r), pos(r) < out.n, out.arr[pos(r)] == r)),
+                        patterns=[specz3_here(r)]))
+    return out
+
+
+def specz3_here(v):
+    from pyvc.speclang import HERE
+    return HERE(v)
+
+
+@lib("intersect1d")
+def np_intersect1d(ex, e, st):
+    """numpy.intersect1d(a, b): strictly increasing, every entry occurs in both (the converse - nothing common is missing - is not needed and not stated)."""
+    a, b = ex.ev(e.args[0], st), ex.ev(e.args[1], st)
+    if not (isinstance(a, Seq) and isinstance(b, Seq)) or e.keywords or len(e.args) != 2:
+        raise U("intersect1d() of these values")
+    ex.trusted_used.add("numpy.intersect1d(a, b): strictly increasing, each entry occurs in a and in b")
+    out = fresh_seq("isect", "nd", "int", dtype="int")
+    i, j = z3.Int("i#is"), z3.Int("j#is")
+    fa, fb = z3.Function(str(fresh("isecta")), I, I), z3.Function(str(fresh("isectb")), I, I)
+    st.assume(out.n >= 0)
+    st.assume(z3.ForAll([i], z3.Implies(z3.And(0 <= i, i < out.n), z3.And(0 <= fa(i), fa(i) < a.n, a.at(fa(i)) == out.arr[i],
+                                                                        0 <= fb(i), fb(i) < b.n, b.at(fb(i)) == out.arr[i])), patterns=[out.arr[i]]))
+    st.assume(z3.ForAll([i, j], z3.Implies(z3.And(0 <= i, i < j, j < out.n), out.arr[i] < out.arr[j]), patterns=[z3.MultiPattern(out.arr[i], out.arr[j])]))
+    return out
+
+
+@lib("argmax")
+def np_argmax(ex, e, st):
+    """numpy.argmax of a short 1-D array: the FIRST position of the maximum."""
+    v = ex.ev(e.args[0], st)
+    if not isinstance(v, Seq) or e.keywords or len(e.args) != 1:
+        raise U("argmax() of this value")
+    n = lit(v.n)
+    if n is None or not (1 <= n <= 4):
+        raise U("argmax of a long or empty array")
+    ex.trusted_used.add("numpy.argmax(1-D array): first position of the maximum")
+    out = iv(n - 1)
+    for p_ in range(n - 2, -1, -1):
+        out = z3.If(z3.And(*[v.at(p_) >= v.at(q_) for q_ in range(p_ + 1, n)]), iv(p_), out)
+    return out
